@@ -967,8 +967,8 @@ func TestDriver(t *testing.T) {
 	nh := hx.EnvInt("VERIF_HISTORIES", 24)
 	shards := hx.EnvInt("VERIF_SHARDS", 8)
 	steps := hx.EnvInt("VERIF_STEPS", 40)
-	nfat := hx.EnvInt("VERIF_FAT", 0)   // histories that fill the pool (20 M weight)
-	nlong := hx.EnvInt("VERIF_LONG", 0) // C13: histories with branches beyond the 144 limit
+	nfat := hx.EnvInt("VERIF_FAT", 0)     // histories that fill the pool (20 M weight)
+	nlong := hx.EnvInt("VERIF_LONG", 0)   // C13: histories with branches beyond the 144 limit
 	nheavy := hx.EnvInt("VERIF_HEAVY", 0) // C05: heavy (rejected / accepted) sets against a small pool
 	longA, longB := hx.EnvInt("VERIF_LONG_A", 80), hx.EnvInt("VERIF_LONG_B", 90)
 	twinEvery := hx.EnvInt("VERIF_TWIN_EVERY", 3)
